@@ -84,6 +84,8 @@ class Session:
             for cid, rc, tail in res.deaths:
                 case = byid.get(cid)
                 kind = "timeout" if rc == "timeout" else ("asan" if "AddressSanitizer" in tail else "crash")
+                if "FATAL unexpected-fault" in tail:
+                    kind = "fault-in-protected-memory"
                 detail = ""
                 mm = re.search(r"ERROR: AddressSanitizer: (\S+)", tail)
                 if mm:
